@@ -17,8 +17,9 @@ PROP = {'streams': [('c13', 2000, 60000)],
 
 TEXT = ('Lean theorems over the mirror of partial_interpret (residual arms, best-effort fall-back, projectable records, typed-unknown short circuits, '
  'partial stores, unknown(), split, unknowns mapper), PartialResponse (decision table, may/must determining, reauthorize, concretize_request): '
- 'table_sound (full: every completion of the residual policies), pinterp_sound_partial (fragment, by induction), reauthorize_eq_fresh (given '
+ 'table_sound (full: every completion of the residual policies), pinterp_sound_partial (fragment, by induction: all unary and binary operators incl. in/getTag/hasTag on a complete store, set and record constructors and extension-function calls with the split semantics, attribute access (not directly on a record constructor), like, is), reauthorize_eq_fresh (given '
  'residual soundness); tied to the code by a differential run (partial observable and reauthorized responses), plus the statement itself evaluated '
  'on the implementation for sampled substitutions.',
- 'proof over a hand-written model; pinterp soundness is proved on a fragment (full statement kept as a Prop); correspondence sampled '
+ 'proof over a hand-written model; pinterp soundness is proved on a fragment (full statement kept as a Prop; missing: ./has directly on a record constructor, the '
+ 'print/parse round trip of the extension constructors (side condition CallDRT), unknowns in the policy text, residual contexts, partial stores); correspondence sampled '
  '(harness/src/c13.rs); residual shapes never compared')
